@@ -2,7 +2,8 @@ import os, sys
 sys.path.insert(0, os.path.dirname(os.path.abspath(__file__)))
 import win, vlib
 
-ASSUME = ["window output buffer never overflows (<= 20 pending batches vs capacity)", "single producer: Emit order = ingest order",
+ASSUME = ["with ALLOWEDLATENESS > 0 only the on-time rows are judged here (every delivery of an interval reports the same on-time rows, each in one interval); late updates are C02's subject",
+          "window output buffer never overflows (<= 20 pending batches vs capacity)", "single producer: Emit order = ingest order",
           "IDLETIMEOUT unset", "processing time: a row's engine-side timestamp is bracketed by the wall clock before Emit and at the end of window.Add; a row whose bracket straddles an interval boundary is accepted in either interval; rows still unreported 3 s + (held+3) window sizes after the last Emit count as lost",
           "results observed through a synchronous sink"]
 
@@ -11,20 +12,22 @@ def run(tier):
     if tier == "quick":
         plan = [("tumbling", dict(size=2, moo=1, al=0, maxts=5, maxev=4, mc=dict(maxts=7))),
                 ("tumbling", dict(size=1, moo=2, al=0, maxts=4, maxev=4, cap=3000)),
-                ("tumbling", dict(size=2, moo=0, al=0, maxts=5, maxev=4, cap=2000))]
-        free = [("tumbling", dict(size=2, moo=1, al=0), 60, 40), ("tumbling", dict(size=3, moo=4, al=0), 40, 60)]
+                ("tumbling", dict(size=2, moo=0, al=0, maxts=5, maxev=4, cap=2000)),
+                ("tumbling", dict(size=2, moo=0, al=1, maxts=5, maxev=4, cap=2000))]      # windows kept open for late rows must not cost on-time rows
+        free = [("tumbling", dict(size=2, moo=1, al=0), 60, 40), ("tumbling", dict(size=3, moo=4, al=0), 40, 60), ("tumbling", dict(size=3, moo=1, al=2), 40, 50)]
     else:
         plan = [("tumbling", dict(size=2, moo=1, al=0, maxts=6, maxev=5, cap=40000, mc=dict(maxts=8))),
                 ("tumbling", dict(size=1, moo=2, al=0, maxts=5, maxev=5, cap=30000)),
                 ("tumbling", dict(size=2, moo=0, al=0, maxts=6, maxev=5, cap=20000)),
-                ("tumbling", dict(size=3, moo=2, al=0, maxts=7, maxev=4))]
+                ("tumbling", dict(size=3, moo=2, al=0, maxts=7, maxev=4)),
+                ("tumbling", dict(size=2, moo=0, al=1, maxts=6, maxev=5, cap=30000)), ("tumbling", dict(size=3, moo=1, al=2, maxts=7, maxev=4, cap=30000))]
         free = [("tumbling", dict(size=2, moo=1, al=0), 400, 60), ("tumbling", dict(size=3, moo=4, al=0), 300, 80),
-                ("tumbling", dict(size=1, moo=0, al=0), 200, 50)]
+                ("tumbling", dict(size=1, moo=0, al=0), 200, 50), ("tumbling", dict(size=3, moo=1, al=2), 300, 60), ("tumbling", dict(size=2, moo=0, al=3), 300, 60)]
     if tier == "quick":
         post = lambda res, rng, vh, scen: win.proc_stage(res, rng, vh, scen, nmodel=120, nfree=12)
     else:
         post = lambda res, rng, vh, scen: win.proc_stage(res, rng, vh, scen, maxnow=6, maxev=4, nmodel=1500, nfree=100, mc=dict(size=3, maxnow=10, maxev=5))
-    return win.run_family("C01", tier, plan, free, ASSUME, post=post)
+    return win.run_family("C01", tier, plan, free, ASSUME, post=post, scope=("ScopeOnTimeOnly",))
 
 
 if __name__ == "__main__":
